@@ -101,7 +101,15 @@ func stateEnumBodyEnded(s *Scanner, c byte) *jerr.JApiError {
 	}
 }
 
-func (s *Scanner) readEnumWithJsc() (uint, *jerr.JApiError) {
+func (s *Scanner) readEnumWithJsc() (l uint, je *jerr.JApiError) {
+	// The enum scanner of the schema library reads past the end of a body that ends inside
+	// an annotation ("[/*...") and panics; that is a malformed body, not a reason to crash.
+	defer func() {
+		if r := recover(); r != nil {
+			l, je = 0, s.japiError("invalid enum body", s.curIndex)
+		}
+	}()
+
 	fc := s.file.Content()
 	file := fs.NewFile("", fc.Slice(s.curIndex, bytes.Index(fc.Len()-1)))
 
